@@ -425,6 +425,8 @@ impl<S: BDDSymbol> BDDEnv<S> {
     {
         let mut s = Rc::clone(&a);
         loop {
+            #[cfg(feature = "verif-hooks")]
+            crate::verif_hooks::fp_tick();
             let snew = t(Rc::clone(&s));
             if snew == s {
                 break;
